@@ -44,8 +44,9 @@ TRUSTED = ['rendering of the JSON documents into the reduced Coq types (e2e.g_pr
            'the Python mirror of every mutation operator is validated against the Coq operator on every site through a '
            'fingerprint of the whole mutated document (not trusted)',
            'the harness calls vrp_cli::extensions::check::check_pragmatic_solution, the function behind `vrp-cli check pragmatic`']
-ASSUMPTIONS = ['problem fragment of the e2e generator: no breaks, relations, reloads, recharges, clustering: the two breach classes '
-               '"broken relation" and "misplaced break" are NOT generated and not covered',
+ASSUMPTIONS = ['problem fragment of the e2e generator WITHOUT breaks, relations, recharges, clustering (reloads are generated): the two '
+               'breach classes "broken relation" and "misplaced break" are not generated and not covered (optional breaks are known to '
+               'the reference semantics but excluded here: the bundled checker rejects many valid documents with breaks, notes/C12.md)',
                'arrival / distance / tour-statistic breaches are injected with |d| = 2 (the checker documents a tolerance of 1)',
                'the bundled checker is not modelled structurally; it is tied to the reference semantics valid_b behaviourally']
 
@@ -82,7 +83,9 @@ def _solve_all(cases):
 def generate(rng, tier, n):
     probs, solve_cases = [], []
     for _ in range(n + n // 4 + 2):
-        p = e2e.gen_checked_problem(rng)
+        # optional breaks are NOT generated here: the bundled checker rejects many valid documents with breaks for reasons that
+        # are not separated yet (notes/C12.md "Breaks"); the three that are understood are findings C12-F10 / F12 (corpus cases)
+        p = e2e.gen_checked_problem(rng, exclude=('breaks',))
         probs.append(p)
         gens = rng.choice([1, 2, 3, rng.range(4, 20)])
         solve_cases.append({'op': 'solve', 'problem': p['problem'], 'matrices': p['matrices'],
@@ -379,7 +382,8 @@ def sol_numbers(s, ids):
                     (st['load'] or [0])[0], st['distance'], len(st['activities'])]
             for a in st['activities']:
                 kind = e2e.KIND.get(a.get('type'), 99)
-                out += [ids.job(a['jobId']) if kind in (0, 1, 2, 3) else e2e.RELOAD_JOB if kind == 13 else -1, kind]
+                out += [ids.job(a['jobId']) if kind in (0, 1, 2, 3) else e2e.RELOAD_JOB if kind == 13
+                        else e2e.BREAK_JOB if kind == 12 else -1, kind]
                 out += _oz(None if a.get('location') is None else a['location']['index'])
                 out += [0] if a.get('time') is None else [1, e2e.secs(a['time']['start']), e2e.secs(a['time']['end'])]
                 out += _oz(None if a.get('jobTag') is None else ids.tag(a['jobTag']))
@@ -447,6 +451,34 @@ def _prefix(msg):
     return re.split(r"[':0-9]", str(msg))[0].strip().replace(' ', '-')[:60] or 'error'
 
 
+def _break_structure(prob, sol):
+    """structural qualifier of a rejection that names a break (tours with a break activity only):
+    /offset-break-and-job-at-departure-stop: the checker resolves offset intervals against the DEPARTURE OF THE FIRST STOP
+        (activity_matcher.rs::get_route_start_time, breaks.rs::get_break_time_window), which is the end of the last activity
+        merged into that stop when jobs are served at the start location, not the tour's departure time;
+    /two-breaks-of-the-shift-overlap-in-time: checker/mod.rs::get_activity_type and activity_matcher.rs::try_match_point_job
+        attribute a break activity to the FIRST break of the shift whose time interval intersects the activity's; location,
+        duration and tag are then held against that break only"""
+    out = ''
+    for t in sol['tours']:
+        vt = e2e.vehicle_type_of({'problem': prob}, t)
+        if vt is None or not any(a.get('type') == 'break' for st in t['stops'] for a in st['activities']):
+            continue
+        brs = e2e.optional_breaks(vt['shifts'][t.get('shiftIndex', 0)])
+        first = t['stops'][0]
+        acts = first['activities']
+        dep = e2e.secs(acts[0]['time']['end']) if acts and acts[0].get('time') else e2e.secs(first['time']['departure'])
+        if any(e2e.break_is_offset(b) for b in brs) and dep != e2e.secs(first['time']['departure']):
+            return '/offset-break-and-job-at-departure-stop'
+        ws = []
+        for b in brs:
+            w = e2e.break_window(b)
+            ws.append((w[0] + dep, w[1] + dep) if e2e.break_is_offset(b) else w)
+        if any(ws[i][0] <= ws[j][1] and ws[j][0] <= ws[i][1] for i in range(len(ws)) for j in range(i + 1, len(ws))):
+            out = '/two-breaks-of-the-shift-overlap-in-time'
+    return out
+
+
 def _reject_structure(c, msg):
     """structural qualifier of a rejection of a VALID document, derived from the documents and the items the message names"""
     prob, sol = c['problem'], c['solution']
@@ -465,13 +497,38 @@ def _reject_structure(c, msg):
                 # location, merged with the arrival) is not seen as the start of a new interval
                 if any(a.get('type') == 'reload' for a in t['stops'][-1]['activities']):
                     return ['/reload-in-last-stop']
+                # the interval that starts at a reload stop expects that stop's load to be the freshly loaded vehicle
+                # (carry + the static deliveries of the interval); the writer reports the load AFTER all activities of the
+                # stop, so a reload stop that also serves jobs (jobs at the reload location) never matches
+                if any(st['activities'][0].get('type') == 'reload' and any(_is_job(a) for a in st['activities'][1:])
+                       for st in t['stops']):
+                    return ['/reload-stop-also-serves-jobs']
                 if any(a.get('type') == 'reload' for st in t['stops'] for a in st['activities']):
                     return ['/tour-with-reload']
         return ['']
+    if msg.startswith('break location') or msg.startswith('break visit time') or msg.startswith('cannot match all breaks'):
+        return [_break_structure(prob, sol)]
     if msg.startswith('cannot match activities to jobs'):
         cats = set()
         for item in msg.split(': ', 1)[1].split(', '):
             jid, _, tag = item.partition(':')
+            if jid == 'break' and jid not in jobs:
+                cats.add('break' + _break_structure(prob, sol).replace('/', ':'))
+                continue
+            if jid == 'reload' and jid not in jobs:
+                # activity_matcher.rs::try_match_point_job takes the FIRST reload of the shift whose location / tag / time fit
+                # (match_place does not look at the duration); assignment.rs then expects that reload's duration
+                twin = False
+                for t in sol['tours']:
+                    vt = e2e.vehicle_type_of({'problem': prob}, t)
+                    if vt is None or not any(a.get('type') == 'reload' for st in t['stops'] for a in st['activities']):
+                        continue
+                    rl = vt['shifts'][t.get('shiftIndex', 0)].get('reloads') or []
+                    twin = twin or any(rl[i]['location'] == rl[j]['location'] and rl[i].get('tag') == rl[j].get('tag')
+                                       and rl[i]['duration'] != rl[j]['duration']
+                                       for i in range(len(rl)) for j in range(i + 1, len(rl)))
+                cats.add('reload:two-reloads-of-the-shift-at-one-location-differ-by-duration' if twin else 'reload')
+                continue
             job = jobs.get(jid)
             if job is None:
                 cats.add('unknown-job')
@@ -536,8 +593,11 @@ def oracle_model(c, impl, model):
     if v == 'reject' or v == 'unreadable':
         return []
     if v == 'panic':
-        return [{'class': 'checker-panics:' + cls + _panic_structure(c, impl),
-                 'what': 'checker panicked on breach %s: %s' % (json.dumps(m), str(impl)[:300])}]
+        # a panic whose site is identified by the structure of the breached document does not depend on which breach operator
+        # produced that structure
+        ps = _panic_structure(c, impl)
+        return [{'class': ('checker-panics' + ps) if ps else ('checker-panics:' + cls),
+                 'what': 'checker panicked on breach %s (%s): %s' % (json.dumps(m), cls, str(impl)[:300])}]
     if v == 'ok':
         return [{'class': 'checker-accepts:' + cls,
                  'what': 'breach %s at site %s accepted by the checker; reference semantics: %s' % (
@@ -549,9 +609,16 @@ def _panic_structure(c, impl):
     """structural qualifier of a checker panic: capacity.rs::get_intervals computes `*idx - 1` for the leg that ENDS at a reload
     stop, which underflows when that leg is the first one (a reload stop right after the departure stop)"""
     if 'subtract with overflow' in str((impl or {}).get('panic')):
+        def starts_with_reload(st):
+            return bool(st['activities'][:1]) and st['activities'][0].get('type') == 'reload'
         for t in c['solution'].get('tours') or []:
-            if len(t['stops']) > 1 and t['stops'][1]['activities'][:1] and t['stops'][1]['activities'][0].get('type') == 'reload':
+            if len(t['stops']) > 1 and starts_with_reload(t['stops'][1]):
                 return '/reload-stop-right-after-departure'
+        # second site of the same function: two consecutive reload stops give the interval (start, end) = (i + 2, i + 1), and
+        # `end_idx - start_idx + 1` underflows
+        for t in c['solution'].get('tours') or []:
+            if any(starts_with_reload(a) and starts_with_reload(b) for a, b in zip(t['stops'], t['stops'][1:])):
+                return '/two-consecutive-reload-stops'
     return ''
 
 
